@@ -752,6 +752,50 @@ fn main() {
             }
         }
         res.cov("two_clients_one_endpoint_requests", conc_n);
+        // family 11: the host ends an exchange with `Connection: close`; the same client goes on: on the same connection when
+        // the proxy left it open (30 ms later it still is), on a new one otherwise - either way its next request is relayed
+        let mut hc_n = 0u64;
+        {
+            for pause_ms in [0u64, 30] {
+                for nth in [1usize, 2] {
+                    sport = if sport >= 39000 { 36000 } else { sport + 1 };
+                    let mut c = w.connect(Some(sport), Some(&rec)).unwrap_or_else(|e| vcommon::result::machinery(&format!("connect: {e}")));
+                    let mut detail = String::new();
+                    for step in 0..(nth + 2) {
+                        id += 1;
+                        hc_n += 1;
+                        evals += 1;
+                        let t = format!("/hc/s{step}?id={id}&st=200&len=5&fr=cl{}", if step == nth - 1 { "&hc=1" } else { "" });
+                        let raw = build_request("GET", &t, &[("Host", b"h")], None, None);
+                        let mut r = c.send(&raw).map_err(|e| e.to_string()).and_then(|_| c.read_response(false, Duration::from_secs(10)));
+                        if step >= nth && r.is_err() {
+                            // the proxy had closed the connection after the host's `Connection: close`: a new connection
+                            c.close();
+                            sport = if sport >= 39000 { 36000 } else { sport + 1 };
+                            c = w.connect(Some(sport), Some(&rec)).unwrap_or_else(|e| vcommon::result::machinery(&format!("connect: {e}")));
+                            r = c.send(&raw).map_err(|e| e.to_string()).and_then(|_| c.read_response(false, Duration::from_secs(10)));
+                        }
+                        match r {
+                            Ok(m) if m.status() == 200 && m.body == pattern(5, id) => {}
+                            other => {
+                                detail = format!("request {} (the host had ended request {nth} with Connection: close) got {:?}", step + 1, other.map(|m| (m.status(), m.body.len())));
+                                break;
+                            }
+                        }
+                        if step == nth - 1 {
+                            std::thread::sleep(Duration::from_millis(pause_ms));
+                        }
+                    }
+                    c.close();
+                    let case = json!({"family": "host-ends-an-exchange-with-connection-close", "which_request": nth, "pause_ms": pause_ms});
+                    nontrivial.insert(case.to_string());
+                    if !detail.is_empty() {
+                        res.violation("response:not-the-hosts:after-the-host-closed-its-connection", &detail, case);
+                    }
+                }
+            }
+        }
+        res.cov("requests_after_a_host_connection_close", hc_n);
         // family 10: one connection kept alive for 150 requests one after the other, and 150 more pipelined behind each other
         let mut long_n = 0u64;
         {
@@ -801,7 +845,7 @@ fn main() {
         res.cov("host_dies_mid_answer_requests", aborted_n);
         res.cov("exempt_upload_requests", exempt_n);
         res.cov("pipelines", pipelines);
-        res.cov("rule", format!("one request per fresh attributed connection for the product of 5 methods x {} client header sets (repeated names in three spellings, empty value, punctuation, names resembling the proxy-owned ones, connection-management headers, 14 well-known request headers) x {} request body framings (0..102400 bytes, content-length / chunks of 1, 7, 4096 / single chunk) x {} host answers (status 200/204/404/500, body 0/1/70000 bytes covering all byte values, content-length or chunked, TCP segment boundary at 0/1/2/4095/4096/4097), with a key latched and (slice) without; plus {} pipelines of 1-3 back-to-back requests on 1 and 2 concurrent keep-alive connections; plus a SAMPLED family of 300 (1200) back-to-back request pairs on kept-alive connections while the agent's runtime workers are held 0.7 ms at a time; plus three uploads that take 10.8 s in total (4 pieces 3.6 s apart; exempt and signed route, content-length and chunked); plus 30 absolute-form request targets (3 authorities x 5 path/query shapes x 2 methods): path and query unchanged at the host; plus 28 requests whose query merely contains dots / escaped dots or whose head is 8 KiB .. 100 KiB large; plus answers of 0.3 .. 4 (16) MB read by a client that takes 64 KiB every 2 ms through a 16 KiB receive buffer while the proxy is the side that closes (Connection: close, HTTP/1.0); plus two clients of one endpoint on their own kept-alive connections, one leaving with Connection: close / as an HTTP/1.0 client / on the host's Connection: close between two requests of the other; plus 300 requests on one connection (150 one after the other, 150 pipelined); plus answers cut off by the death of the host at 11 offsets (before the first byte, inside the head, 0/1/3/4000/8197 bytes into the body, 8/5/3/1 bytes before the end) x content-length/chunked x 2 sizes, which must not reach the client as a complete message while the host sees the request exactly once; plus the two signature-exempt uploads with 9 body framings (0 bytes .. 1 MiB, content-length and chunked) x 2 header sets; the host's answer is a function of the request target and echoes the request id", hsets, req_bodies.len(), resps.len(), pipelines));
+        res.cov("rule", format!("one request per fresh attributed connection for the product of 5 methods x {} client header sets (repeated names in three spellings, empty value, punctuation, names resembling the proxy-owned ones, connection-management headers, 14 well-known request headers) x {} request body framings (0..102400 bytes, content-length / chunks of 1, 7, 4096 / single chunk) x {} host answers (status 200/204/404/500, body 0/1/70000 bytes covering all byte values, content-length or chunked, TCP segment boundary at 0/1/2/4095/4096/4097), with a key latched and (slice) without; plus {} pipelines of 1-3 back-to-back requests on 1 and 2 concurrent keep-alive connections; plus a SAMPLED family of 300 (1200) back-to-back request pairs on kept-alive connections while the agent's runtime workers are held 0.7 ms at a time; plus three uploads that take 10.8 s in total (4 pieces 3.6 s apart; exempt and signed route, content-length and chunked); plus 30 absolute-form request targets (3 authorities x 5 path/query shapes x 2 methods): path and query unchanged at the host; plus 28 requests whose query merely contains dots / escaped dots or whose head is 8 KiB .. 100 KiB large; plus answers of 0.3 .. 4 (16) MB read by a client that takes 64 KiB every 2 ms through a 16 KiB receive buffer while the proxy is the side that closes (Connection: close, HTTP/1.0); plus two clients of one endpoint on their own kept-alive connections, one leaving with Connection: close / as an HTTP/1.0 client / on the host's Connection: close between two requests of the other; plus requests of a client after the host ended one of its exchanges with Connection: close (same connection if the proxy left it open, else a new one); plus 300 requests on one connection (150 one after the other, 150 pipelined); plus answers cut off by the death of the host at 11 offsets (before the first byte, inside the head, 0/1/3/4000/8197 bytes into the body, 8/5/3/1 bytes before the end) x content-length/chunked x 2 sizes, which must not reach the client as a complete message while the host sees the request exactly once; plus the two signature-exempt uploads with 9 body framings (0 bytes .. 1 MiB, content-length and chunked) x 2 header sets; the host's answer is a function of the request target and echoes the request id", hsets, req_bodies.len(), resps.len(), pipelines));
     } else {
         // ---------------- C15 ----------------
         w.set_key(Some(K1));
